@@ -80,7 +80,7 @@ def main(argv: list[str]) -> int:
     a = sub.add_parser("all")
     a.add_argument("--tier", default="quick", choices=["quick", "thorough"])
     s = sub.add_parser("selftest")
-    s.add_argument("--jobs", type=int, default=16)
+    s.add_argument("--jobs", type=int, default=3)
     s.add_argument("--only", default=None)
     args = ap.parse_args(argv)
     if args.cmd == "check":
@@ -99,7 +99,7 @@ def main(argv: list[str]) -> int:
         return worst
     if args.cmd == "selftest":
         from .selftest import runner
-        return runner.main(args.jobs, args.only)
+        return runner.main(["--jobs", str(args.jobs)] + (["--only", args.only] if args.only else []))
     return 2
 
 
